@@ -288,6 +288,19 @@ def _same(a, b):
     if a is b:
         return True
     if isinstance(a, tuple) and isinstance(b, tuple):
-        return len(a) == len(b) and all(_same(x, y) for x, y in zip(a, b))
+        if len(a) != len(b):
+            return False
+        if all(_same(x, y) for x, y in zip(a, b)):
+            return True
+        # alternatives of a join (custom transcript | default label) may be listed in either order
+        if all(isinstance(x, tuple) for x in a) and all(isinstance(y, tuple) for y in b):
+            rest = list(b)
+            for x in a:
+                m = [y for y in rest if _same(x, y)]
+                if not m:
+                    return False
+                rest.remove(m[0])
+            return True
+        return False
     # alt structures hold nested (kind, data, rep) tuples
     return False
